@@ -8,7 +8,7 @@ ID=${2:-$(python3 -c "import json;print(json.load(open('$d/meta.json'))['propert
 S=$(mktemp -d /var/tmp/verif-qseed.XXXXXX)
 rsync -a --exclude .git /repo/ "$S"/
 (cd "$S" && patch -p1 -s --no-backup-if-mismatch < /verif/$d/patch.diff) || { echo "patch failed"; rm -rf "$S"; exit 2; }
-out=$(bin/goverif prop -id "$ID" -tier quick -repo "$S" -verif /verif -evidence "$S/.evidence" 2>&1)
+out=$(VERIF_NO_REPLAY=1 bin/goverif prop -id "$ID" -tier quick -repo "$S" -verif /verif -evidence "$S/.evidence" 2>&1)
 echo "$out" | grep '^VIOLATION' | sed 's/replay=[^ ]* //' | cut -c1-220
 echo "$out" | tail -1
 rm -rf "$S"
